@@ -686,8 +686,7 @@ fn bitvec_reads(bv: &BitVector, rng: &mut Rng, out: &mut Out, tier: &str) {
             calls += 1;
             if calls > n + 12 { break; }          // an iterator that never ends shows as extra elements, not as a hang
             if rng.chance(1, 3) {
-                let (lo, hi) = it.size_hint();
-                out.op(42, &[], r_nums(&[lo, hi.unwrap_or(usize::MAX)]), "size_hint");
+                hint_op(&it, out);
             }
             let x = it.next();
             out.op(41, &[], match x { None => "-".into(), Some(b) => format!("b:{}", b as u8) }, "next");
@@ -698,8 +697,7 @@ fn bitvec_reads(bv: &BitVector, rng: &mut Rng, out: &mut Out, tier: &str) {
                 }
             }
         }
-        let (lo, hi) = it.size_hint();
-        out.op(42, &[], r_nums(&[lo, hi.unwrap_or(usize::MAX)]), "size_hint");
+        hint_op(&it, out);
         iter_provided(Some(bv.iter()), &|b: bool| format!("b:{}", b as u8), (40, vec![]), 41, n, rng, out);
         let p = rng.below(n as u64 + 1) as usize;
         iter_provided(guard(|| bv.unary_iter(p)), &|q: usize| format!("n:{:x}", q), (30, vec![p]), 31, n, rng, out);
@@ -1372,8 +1370,7 @@ fn kind_cv(rng: &mut Rng, out: &mut Out, id: &str, tier: &str) {
             out.op(41, &[], match x { None => "-".into(), Some(q) => format!("n:{:x}", q) }, "next");
             if x.is_none() { after += 1; }
         }
-        let (lo, hi) = it.size_hint();
-        out.op(42, &[], r_nums(&[lo, hi.unwrap_or(usize::MAX)]), "size_hint");
+        hint_op(&it, out);
         if all.len() <= 2000 {
             iter_provided(Some(cv.iter()), &|q: usize| format!("n:{:x}", q), (40, vec![]), 41, all.len(), rng, out);
         }
@@ -1462,6 +1459,14 @@ fn gen_vals(rng: &mut Rng, n: usize, out: &mut Out) -> Vec<usize> {
     v
 }
 
+// size_hint of an implementation iterator, guarded: a panic is an answer (P), not a harness error
+fn hint_op<I: Iterator>(it: &I, out: &mut Out) {
+    match guard(AssertUnwindSafe(|| it.size_hint())) {
+        None => out.op(42, &[], "P".into(), "size_hint"),
+        Some((lo, hi)) => out.op(42, &[], r_nums(&[lo, hi.unwrap_or(usize::MAX)]), "size_hint"),
+    }
+}
+
 // provided methods of `Iterator` (nth / count / last) interleaved with next / size_hint on a fresh iterator; the
 // dispatcher executes them with their default-method semantics on top of the model's `next` (op `nx`)
 fn iter_provided<I: Iterator>(it: Option<I>, fmt: &dyn Fn(I::Item) -> String, start: (u32, Vec<usize>), nx: usize, len: usize,
@@ -1477,8 +1482,10 @@ fn iter_provided<I: Iterator>(it: Option<I>, fmt: &dyn Fn(I::Item) -> String, st
         steps += 1;
         match rng.below(8) {
             0 | 1 if nx == 41 => {
-                let (lo, hi) = it.size_hint();
-                out.op(42, &[], r_nums(&[lo, hi.unwrap_or(usize::MAX)]), "size_hint");
+                match guard(AssertUnwindSafe(|| it.size_hint())) {
+                    None => { out.op(42, &[], "P".into(), "size_hint"); return; }
+                    Some((lo, hi)) => out.op(42, &[], r_nums(&[lo, hi.unwrap_or(usize::MAX)]), "size_hint"),
+                }
             }
             2 | 3 | 4 => {
                 let n = match rng.below(8) {
@@ -1521,8 +1528,7 @@ fn iter_ops<I: Iterator<Item = usize>>(mut it: I, rng: &mut Rng, out: &mut Out, 
     let mut cnt = 0;
     while after < 3 && cnt < cap {
         if rng.chance(1, 4) {
-            let (lo, hi) = it.size_hint();
-            out.op(42, &[], r_nums(&[lo, hi.unwrap_or(usize::MAX)]), "size_hint");
+            hint_op(&it, out);
         }
         let x = guard(AssertUnwindSafe(|| it.next()));
         match x {
@@ -1534,8 +1540,7 @@ fn iter_ops<I: Iterator<Item = usize>>(mut it: I, rng: &mut Rng, out: &mut Out, 
         }
         cnt += 1;
     }
-    let (lo, hi) = it.size_hint();
-    out.op(42, &[], r_nums(&[lo, hi.unwrap_or(usize::MAX)]), "size_hint");
+    hint_op(&it, out);
 }
 
 fn gen_n(rng: &mut Rng, tier: &str, big: usize) -> usize {
@@ -2564,6 +2569,37 @@ fn sweep_wm_words(out: &mut Out, id: &str, tier: &str, sid: u64) {
     out.stat("sweep:wm-boundary-words");
 }
 
+// SArray over long vectors with one tight cluster of set bits (many elements in one Elias-Fano bucket: the first
+// bucket, a middle one, the last one): rank / predecessor / successor before, inside and after the cluster
+fn sweep_sarray_clusters(out: &mut Out, id: &str) {
+    for &(len, start, size) in &[(4096usize, 100usize, 17usize), (4096, 0, 24), (8192, 3000, 40), (4096, 4096 - 20, 20), (65536, 70, 12)] {
+        let mut bits = vec![false; len];
+        for j in start..start + size { bits[j] = true; }
+        out.case(&format!("{}c{}s{}z{}", id, len, start, size));
+        out.data(&words_of(&bits));
+        match guard(|| SArray::from_bits(bits.iter().cloned()).enable_rank()) {
+            None => out.op(1004, &[len, 1], "P".into(), "SArray construction panicked"),
+            Some(x) => {
+                out.op(1004, &[len, 1], "K".into(), "SArray (one cluster)");
+                out.op(22, &[], r_num(|| x.num_ones()), "num_ones");
+                let mut ps = vec![0usize, 1, start / 2, start.wrapping_sub(1), start, start + 1, start + size / 2, start + size - 1, start + size,
+                                  start + size + 1, (start + size + len) / 2, len - 1, len, len + 1];
+                ps.retain(|&p| p <= len + 1);
+                for &p in &ps {
+                    out.op(11, &[p], r_optbool(|| x.access(p)), "access");
+                    out.op(14, &[p], r_optnum(|| x.rank1(p)), "rank1");
+                    out.op(15, &[p], r_optnum(|| x.rank0(p)), "rank0");
+                    out.op(18, &[p], r_optnum(|| x.predecessor1(p)), "predecessor1");
+                    out.op(20, &[p], r_optnum(|| x.successor1(p)), "successor1");
+                }
+                for &k in &[0usize, 1, size / 2, size - 1, size] { out.op(16, &[k], r_optnum(|| x.select1(k)), "select1"); }
+            }
+        }
+        out.end();
+    }
+    out.stat("sweep:sarray-clusters");
+}
+
 // kind 26: DArray exact-span sweep (deep / thorough searches): lead x ones-before-the-far-one x distance x view,
 // the combinations split over the shards of a run.  A block of `c` consecutive ones starting at `lead` and one
 // more at distance `d` from the first: the dense / sparse decision (d < 65536), the sub-block head (c % 32 == 0),
@@ -2716,7 +2752,7 @@ fn main() {
                 1 => if i % 4 == 3 { kind_bitvec_big(&mut rng, &mut out, &id, tier) } else { kind_bitvec(&mut rng, &mut out, &id, tier) },
                 2 => { if i == 0 { sweep_aligned(2, &mut out, &id, sid); } kind_rank9(&mut rng, &mut out, &id, tier) }
                 3 => { if i == 0 { sweep_aligned(3, &mut out, &id, sid); } kind_darray(&mut rng, &mut out, &id, tier) }
-                4 => { if i == 0 { sweep_aligned(4, &mut out, &id, sid); } kind_sarray(&mut rng, &mut out, &id, tier) }
+                4 => { if i == 0 { sweep_aligned(4, &mut out, &id, sid); if sid % 2 == 0 { sweep_sarray_clusters(&mut out, &id); } } kind_sarray(&mut rng, &mut out, &id, tier) }
                 5 => { if i == 0 { sweep_msb(5, &mut out, &id, sid); } kind_efb(&mut rng, &mut out, &id, tier) }
                 6 => { if i == 0 { sweep_msb(6, &mut out, &id, sid); sweep_cv_empty(&mut out, &id); } kind_cv(&mut rng, &mut out, &id, tier) }
                 7 => { if i == 0 { sweep_msb(7, &mut out, &id, sid); sweep_steep(&mut out, &id, sid); } kind_dacsopt(&mut rng, &mut out, &id, tier) }
